@@ -394,12 +394,25 @@ func firstUse(name string, calls []func() any, sameClass [][2]int) engine.Unit {
 			got := make([]any, len(calls))
 			outs := make([]rt.Outcome, len(calls))
 			var threads []rt.ThreadSpec
+			var quiet rt.WaitGroup
+			quiet.Add(len(calls))
 			for k := range calls {
 				k := k
 				threads = append(threads, rt.ThreadSpec{Name: fmt.Sprintf("T%d", k), Body: func() {
+					defer quiet.Done()
 					outs[k] = rt.Protect(0, func() { got[k] = calls[k]() })
 				}})
 			}
+			// when all is quiet every call is made once more, still under the scheduler: a registry lock that a first
+			// use left held parks this thread for good, which the scheduler reports
+			again := make([]any, len(calls))
+			againOuts := make([]rt.Outcome, len(calls))
+			threads = append(threads, rt.ThreadSpec{Name: "afterwards", Body: func() {
+				quiet.Wait()
+				for k := range calls {
+					againOuts[k] = rt.Protect(0, func() { again[k] = calls[k]() })
+				}
+			}})
 			return threads, func(ex *rt.Exec) []string {
 				var what []string
 				for _, rc := range ex.Races {
@@ -422,9 +435,10 @@ func firstUse(name string, calls []func() any, sameClass [][2]int) engine.Unit {
 				// returns the class it handed out during the concurrent first uses (a registration must not get lost)
 				if len(what) == 0 && len(ex.Stuck) == 0 {
 					for k := range calls {
-						var again any
-						if o := rt.Protect(1000000, func() { again = calls[k]() }); !o.Panicked && !outs[k].Panicked && again != got[k] {
-							what = append(what, "a class handed out during concurrent first uses is not the class the accessor returns afterwards\x00"+fmt.Sprintf("call %d: %T %p, afterwards %p", k, got[k], got[k], again))
+						if againOuts[k].Panicked {
+							what = append(what, "class accessor panics when called again after the first uses\x00"+fmt.Sprint(k, againOuts[k].Value))
+						} else if !outs[k].Panicked && again[k] != got[k] {
+							what = append(what, "a class handed out during concurrent first uses is not the class the accessor returns afterwards\x00"+fmt.Sprintf("call %d: %T %p, afterwards %p", k, got[k], got[k], again[k]))
 						}
 					}
 				}
@@ -436,6 +450,23 @@ func firstUse(name string, calls []func() any, sameClass [][2]int) engine.Unit {
 		rt.ResetRegistries()
 		rt.ResetGlobalsOf("collection", "agent")
 	}}
+}
+
+// classOf asks a collection for its class (every kind has GetClass; the interface a result is handed out
+// under need not list it)
+func classOf(v any) any {
+	m := reflect.ValueOf(v).MethodByName("GetClass")
+	if !m.IsValid() {
+		return nil
+	}
+	return m.Call(nil)[0].Interface()
+}
+
+func mapOf() col.MapLike[string, int] {
+	m := col.Map[string, int](common.N()).Make()
+	m.SetValue("a", 1)
+	m.SetValue("b", 2)
+	return m
 }
 
 func units(tier string) []engine.Unit {
@@ -477,6 +508,19 @@ func units(tier string) []engine.Unit {
 		firstUse("Collator[int], Collator[string], Sorter[int]", []func() any{func() any { return age.Collator[int]() }, func() any { return age.Collator[string]() }, func() any { return age.Sorter[int]() }}, nil),
 		firstUse("Catalog[string,int] and Catalog[int,string]", []func() any{func() any { return col.Catalog[string, int](N()) }, func() any { return col.Catalog[int, string](N()) }}, nil),
 		firstUse("Iterator[int] twice", []func() any{func() any { return age.Iterator[int]() }, func() any { return age.Iterator[int]() }}, [][2]int{{0, 1}}),
+		firstUse("Array[string] reached from the keys of a Map before anybody asked for it, and Array[string]", []func() any{
+			func() any { return classOf(mapOf().GetKeys()) }, func() any { return col.Array[string](N()) }}, [][2]int{{0, 1}}),
+		firstUse("String() of the values of a Map (an Array nobody asked for yet), and List[int]", []func() any{
+			func() any { return fmt.Sprint(mapOf().GetValues(col.List[string](N()).MakeFromArray([]string{"a"}))) }, func() any { return col.List[int](N()) }}, nil),
+		firstUse("class of what Map.RemoveValues returns, twice", []func() any{
+			func() any {
+				return classOf(mapOf().RemoveValues(col.List[string](N()).MakeFromArray([]string{"a"})))
+			}, func() any {
+				return classOf(mapOf().RemoveValues(col.List[string](N()).MakeFromArray([]string{"a"})))
+			}}, [][2]int{{0, 1}}),
+		firstUse("class of a Catalog's keys and of a Set's array view", []func() any{
+			func() any { c := col.Catalog[string, int](N()).Make(); c.SetValue("a", 1); return classOf(c.GetKeys()) },
+			func() any { return classOf(col.Set[string](N()).MakeFromArray([]string{"b"})) }}, nil),
 		firstUse("Array[int] via List.Make twice", []func() any{func() any { return col.List[int](N()).Make().GetClass() }, func() any { return col.List[int](N()).Make().GetClass() }}, [][2]int{{0, 1}}),
 	)
 	return us
